@@ -356,6 +356,19 @@ def exec (s : St) (w : List String) : St × J :=
     (match s.get (tokN src) with
       | none => (s, .str "E:KeyError")
       | some g => storeRes s (tokN dst) (parseInteractions g.directed g.genInteractions))
+  | ["textrt", kind, src, dst, delim] =>
+    (match s.get (tokN src) with
+      | none => (s, .str "E:KeyError")
+      | some g =>
+        let d : Char := match tokN delim with | 0 => ' ' | 1 => ',' | 2 => '\t' | _ => ';'
+        let lines := if kind == "1" then g.interactionLines d else g.snapshotLines d
+        let res := if kind == "1" then parseInteractionsText g.directed '#' (some d) lines
+                   else parseSnapshotsText g.directed '#' (some d) lines
+        let out := J.obj [("lines", .arr ((sortByKey (fun (l : List Char) => l.map (fun c => (c.toNat : Int))) lines).map
+                      (fun l => J.arr (l.map (fun c => J.num (c.toNat : Int))))))]
+        (match res with
+          | (h, none) => (s.set (tokN dst) h, out)
+          | (_, some e) => (s, jerr e)))
   | ["filert", kind, src, dst, _, _, _] =>
     (match s.get (tokN src) with
       | none => (s, .str "E:KeyError")
